@@ -90,6 +90,15 @@ func c04EvalFacts(cond ast.Expr, target ast.Node) []core.Fact {
 // It returns the number of accepted definitions and, on failure, the offending definition's position
 // (the function's position when the variable is undefined) and a witness path.
 func c04LastDef(f *core.FuncInfo, v *types.Var, uses []core.Point, inconsistent func(*cfg.Block, int) bool, good func(assignment) bool, entryGood bool) (ok bool, nGood int, pos token.Pos, wit string) {
+	return c04LastDefX(f, v, uses, inconsistent, good, entryGood, false)
+}
+
+// c04NoEdge: no edge is excluded (all paths).
+func c04NoEdge(*cfg.Block, int) bool { return false }
+
+// c04LastDefX: as c04LastDef; with multi, a definition by a multi-value statement (`a, v := call()`) is
+// also handed to good (its RHS is the call), instead of being rejected outright.
+func c04LastDefX(f *core.FuncInfo, v *types.Var, uses []core.Point, inconsistent func(*cfg.Block, int) bool, good func(assignment) bool, entryGood bool, multi bool) (ok bool, nGood int, pos token.Pos, wit string) {
 	defs := assignsToVar(f, v)
 	var defPts []core.Point
 	for _, d := range defs {
@@ -103,7 +112,7 @@ func c04LastDef(f *core.FuncInfo, v *types.Var, uses []core.Point, inconsistent 
 			}
 			return false
 		}
-		if as, isAs := d.Stmt.(*ast.AssignStmt); isAs && (len(as.Lhs) != len(as.Rhs) || (as.Tok != token.ASSIGN && as.Tok != token.DEFINE)) {
+		if as, isAs := d.Stmt.(*ast.AssignStmt); isAs && ((len(as.Lhs) != len(as.Rhs) && !multi) || (as.Tok != token.ASSIGN && as.Tok != token.DEFINE)) {
 			return false
 		}
 		return good(d)
